@@ -23,7 +23,8 @@ Results other than `ok`:
   `hole k`        mypy accepts, but by a rule that is known to be unsound — `tc` refuses so that `soundness`
                   is a theorem: 1 = assignment to an attribute through a union receiver is checked against the
                   *union* of the declared attribute types; 2 = a loop body is re-checked at most 4 times, the
-                  binder state after the 4th pass is used whether or not it is a fixpoint
+                  binder state after the 4th pass is used whether or not it is a fixpoint; 3 = isinstance on a
+                  union drops an item unrelated to the tested class although the program has a common subclass
   `stuck k`       a defensive check failed (a merged type is not above a branch type, a declaration meets an
                   already narrowed local); never observed — it keeps the proof independent of binder invariants
   `fuel`          recursion budget exhausted
@@ -139,6 +140,16 @@ def narrowResult (x : Nat) (yes no : Ty) (intersect : Bool) : TC (CMap × CMap) 
   else if no.isEmpty then .ok (some [(x, yes)], none)
   else .ok (some [(x, yes)], some [(x, no)])
 
+/-- some class of the program is a subclass of both `c` and `d` -/
+def commonSub (P : Prog) (c d : Nat) : Bool :=
+  (List.range P.classes.length).any fun k => isSub P k c && isSub P k d
+
+/-- a union item that `conditional_types` drops as "not overlapping" `C` although a common subclass exists -/
+def dropsInhabited (P : Prog) (c : Nat) (a : Atom) : Bool :=
+  match a with
+  | .cls d => !isSub P d c && !isSub P c d && commonSub P c d
+  | _ => false
+
 /-- maps for `isinstance(x, C)` where `x : T` -/
 def instMaps (P : Prog) (x c : Nat) (T : Ty) : TC (CMap × CMap) :=
   match T with
@@ -149,6 +160,8 @@ def instMaps (P : Prog) (x c : Nat) (T : Ty) : TC (CMap × CMap) :=
       if isInstanceAtom a then .error (.unsupported 1) else .ok (none, noInfo)
     else .ok (some [(x, (instAtom P c a).1)], some [(x, (instAtom P c a).2)])
   | _ =>
+    if T.any (dropsInhabited P c) then .error (.hole 3)
+    else
     -- no item can be an instance of C: mypy tries ad-hoc intersections if every item is an Instance
     narrowResult x (unionTys P (T.map fun a => (instAtom P c a).1)) (unionTys P (T.map fun a => (instAtom P c a).2))
       (T.all isInstanceAtom)
@@ -546,37 +559,73 @@ def tcInit (P : Prog) (c : Nat) (params : List Ty) : List (Nat × Expr) → TC R
 def overrideOk (P : Prog) (sub sup : FuncDef) : Bool :=
   argsFit P sup.params sub.params && subTy P sub.ret sup.ret
 
-def overrideCheck (P : Prog) (base : Option Nat) (m : Nat) (fd : FuncDef) : Bool :=
-  match base with
-  | none => true
-  | some b =>
-    match lookupMeth P b m with
-    | some (_, fd0) => overrideOk P fd fd0
-    | none => true
+/-- the definitions of method `m` in the classes of a list, in order -/
+def definers (P : Prog) (m : Nat) : List Nat → List (Nat × FuncDef)
+  | [] => []
+  | k :: ks =>
+    match ownMeth P k m with
+    | some fd => (k, fd) :: definers P m ks
+    | none => definers P m ks
 
-def tcMethods (P : Prog) (c : Nat) (base : Option Nat) : List (Nat × FuncDef) → TC Recs
+def declarers (P : Prog) (f : Nat) : List Nat → List (Nat × Ty)
+  | [] => []
+  | k :: ks =>
+    match ownAttr P k f with
+    | some T => (k, T) :: declarers P f ks
+    | none => declarers P f ks
+
+/-- `check_method_override`: a method is checked against its definition in *every* class of `mro[1:]` -/
+def overrideCheck (P : Prog) (tail : List Nat) (m : Nat) (fd : FuncDef) : Bool :=
+  (definers P m tail).all fun p => overrideOk P fd p.2
+
+def tcMethods (P : Prog) (c : Nat) (tail : List Nat) : List (Nat × FuncDef) → TC Recs
   | [] => pure []
   | (m, fd) :: r => do
     let rs ← tcFunc P (some c) fd
-    req (overrideCheck P base m fd) (.type 11)
-    let rest ← tcMethods P c base r
+    req (overrideCheck P tail m fd) (.type 11)
+    let rest ← tcMethods P c tail r
     pure (rs ++ rest)
 
-/-- attribute redeclaration in a subclass: mypy accepts any *subtype* of the inherited declaration -/
-def tcAttrs (P : Prog) (base : Option Nat) : List (Nat × Ty) → TC Unit
+/-- attribute redeclaration in a subclass: mypy accepts any *subtype* of each inherited declaration -/
+def tcAttrs (P : Prog) (tail : List Nat) : List (Nat × Ty) → TC Unit
   | [] => pure ()
-  | (f, T) :: r =>
-    match base with
-    | none => pure ()
-    | some b =>
-      match lookupAttr P b f with
-      | some T0 => do req (subTy P T T0) (.type 12); tcAttrs P base r
-      | none => tcAttrs P base r
+  | (f, T) :: r => do
+    req ((declarers P f tail).all fun p => subTy P T p.2) (.type 12)
+    tcAttrs P tail r
+
+/-- `check_multiple_inheritance` / `check_compatibility` for a method name the class does not define itself:
+    the first base defining it (the definition that is used) against every later base defining it that is
+    not among the first one's ancestors -/
+def miMethOk (P : Prog) (own : List (Nat × FuncDef)) (tail : List Nat) (m : Nat) : Bool :=
+  (lookup m own).isSome ||
+  match definers P m tail with
+  | [] => true
+  | (k, fd) :: rest => rest.all fun p => isSub P k p.1 || overrideOk P fd p.2
+
+/-- the same for (writable) attributes: the two declarations must be equivalent -/
+def miAttrOk (P : Prog) (own : List (Nat × Ty)) (tail : List Nat) (f : Nat) : Bool :=
+  (lookup f own).isSome ||
+  match declarers P f tail with
+  | [] => true
+  | (k, T) :: rest => rest.all fun p => isSub P k p.1 || sameTy P T p.2
+
+def methNames (P : Prog) (ks : List Nat) : List Nat :=
+  (ks.map fun k => match P.classes[k]? with
+    | some kd => kd.methods.map (·.1)
+    | none => []).flatten
+
+def attrNames (P : Prog) (ks : List Nat) : List Nat :=
+  (ks.map fun k => match P.classes[k]? with
+    | some kd => kd.attrs.map (·.1)
+    | none => []).flatten
 
 def tcClass (P : Prog) (c : Nat) (cd : ClassDef) : TC Recs := do
-  tcAttrs P cd.base cd.attrs
+  let tail := cd.mro.drop 1
+  tcAttrs P tail cd.attrs
+  req ((methNames P tail).all (miMethOk P cd.methods tail)) (.type 14)
+  req ((attrNames P tail).all (miAttrOk P cd.attrs tail)) (.type 14)
   let r1 ← tcInit P c cd.init.params cd.init.assigns
-  let r2 ← tcMethods P c cd.base cd.methods
+  let r2 ← tcMethods P c tail cd.methods
   pure (r1 ++ r2)
 
 def tcClasses (P : Prog) : Nat → List ClassDef → TC Recs
@@ -601,24 +650,20 @@ def tc (P : Prog) : TC Recs := do
 
 /-! ## Well-formedness: the program shapes excluded because of F18 / F19 (DESIGN §3) -/
 
+/-- the recorded `__mro__` starts with the class, mentions existing classes only, and contains the `__mro__` of
+    each of its members (what C3 linearisation guarantees; `soundness` needs nothing else about it) -/
 def mroCoherent (P : Prog) (c : Nat) (cd : ClassDef) : Bool :=
-  match cd.base with
-  | none => cd.mro == [c]
-  | some b => decide (b < c) && cd.mro == c :: mroOf P b
+  cd.mro.head? == some c &&
+  cd.mro.all fun d => (P.classes[d]?).isSome && (mroOf P d).all fun e => cd.mro.contains e
 
-/-- F18: an attribute redeclared in a subclass keeps its type -/
-def attrsInvariant (P : Prog) (cd : ClassDef) : Bool :=
-  match cd.base with
-  | none => true
-  | some b => cd.attrs.all fun p =>
-      match lookupAttr P b p.1 with
-      | some T0 => p.2 == T0
-      | none => true
+/-- F18: every declaration of an attribute along the MRO has the type the class sees for it -/
+def attrsInvariant (P : Prog) (c : Nat) (cd : ClassDef) : Bool :=
+  cd.mro.all fun k =>
+    match P.classes[k]? with
+    | some kd => kd.attrs.all fun p => lookupAttr P c p.1 == some p.2
+    | none => true
 
-def allAttrNames (P : Prog) (cd : ClassDef) : List Nat :=
-  (cd.mro.map fun k => match P.classes[k]? with
-    | some kd => kd.attrs.map (·.1)
-    | none => []).flatten
+def allAttrNames (P : Prog) (cd : ClassDef) : List Nat := attrNames P cd.mro
 
 /-- F19: every attribute declared for the class (own or inherited) is assigned by its `__init__` -/
 def initComplete (P : Prog) (cd : ClassDef) : Bool :=
@@ -626,7 +671,7 @@ def initComplete (P : Prog) (cd : ClassDef) : Bool :=
 
 def wfClasses (P : Prog) : Nat → List ClassDef → Bool
   | _, [] => true
-  | c, cd :: r => mroCoherent P c cd && attrsInvariant P cd && initComplete P cd && wfClasses P (c + 1) r
+  | c, cd :: r => mroCoherent P c cd && attrsInvariant P c cd && initComplete P cd && wfClasses P (c + 1) r
 
 def WF (P : Prog) : Prop := wfClasses P 0 P.classes = true
 
